@@ -793,6 +793,13 @@ func (v *FV) cellArray(t types.Type) string {
 func (v *FV) elemArray(elem types.Type) string {
 	s := v.sortOf(elem)
 	name := "E_" + mangle(s)
+	if s == "Int" {
+		// references: one backing-store array per element type (slices of different pointer /
+		// interface types cannot alias without unsafe)
+		if _, isBasic := elem.Underlying().(*types.Basic); !isBasic {
+			name += "_" + mangle(typeShort(types.Unalias(elem)))
+		}
+	}
 	if v.mode == ModeMath {
 		// all integer types share the sort Int in math mode: keep the backing stores of
 		// differently typed slices apart (Go cannot alias them without unsafe)
